@@ -214,6 +214,34 @@ def run(ctx):
             s3.sample({"config": desc, "op": ops[0], "model": model[0]})
     streams.append(s3)
 
+    # ---------------- the mapping a program gets does not depend on what was assembled before ----------
+    import pipeline
+    from props.layout import raw
+    s5 = core.Stream("S1-programs-after-map", "programs under the built-in LoROM / HiROM mappings assembled (fresh Program each) right after programs that define their own .map (different geometry): bytes must land at the textbook offsets of their addresses and the address after a bank end must be the next bank's window start (Spec oracle), as for a program assembled alone; compared with the model")
+    run_ = pipeline.Runner(drv)
+    try:
+        progs = []
+        for i in range(6 if tier == "quick" else 60):
+            mask = rng.choice([0x8000, 0x10000])
+            lo = rng.choice([0, 1, 0x10])
+            progs.append(raw("low_rom", f".map identifier=1 bank_range=0x{lo:x},0x3f addr_range=0x{0x10000 - mask:x},0xffff mask=0x{mask:x}\n.map identifier=2 bank_range=0x7e,0x7f addr_range=0,0xffff mask=0x10000 writable=1\n*=0x{lo + 1:02x}8000\n.db 1,2,3\n", usermap=(lo, 0x3f, mask)))
+            rom = rng.choice(["low_rom", "high_rom", "low_rom_2"])
+            b = {"low_rom": rng.randrange(1, 0x60), "high_rom": 0xC0 + rng.randrange(1, 0x3E), "low_rom_2": 0x80 + rng.randrange(1, 0x4E)}[rom]
+            progs.append(raw(rom, f"*=0x{b:02x}8000\n.db 1,2\nl1:\n*=0x{b:02x}fffe\n.db 3,4,5\nl2:\n.dl l1, l2\n"))
+        for pr, r, m in run_.run(progs):
+            s5.cases += 1
+            s5.nontrivial.add((pr["rom"], pr["src"][:40]))
+            run_.correspond(s5, pr, r, m)
+            if pr.get("usermap") is None:
+                if r["status"] != "ok":
+                    s5.violate({"src": pr["src"], "rom": pr["rom"], "after": "a program with its own .map"}, "assembled", r.get("exc") or r.get("error"), "a program under a built-in mapping is rejected after another program defined a custom map")
+                pipeline.oracle_c03(run_, s5, pr, r)
+                pipeline.oracle_c02(run_, s5, pr, r)
+        s5.sample({"src": progs[1]["src"], "rom": progs[1]["rom"]})
+    finally:
+        run_.close()
+    streams.append(s5)
+
     # ---------------- thorough: all 2^24 addresses x both buses, by hash per bank -------------------
     if tier == "thorough":
         s4 = core.Stream("S1-exhaustive", "every one of the 2^24 logical addresses x both built-in buses: physical (model, Spec for in-window) and +1 / +0x8001 advance (model), compared by per-bank rolling hash, mismatches bisected")
